@@ -10,6 +10,7 @@ Oracle  : integer model.  native slots = timedelta(same args, 365 d/y, 30 d/mo);
 """
 from __future__ import annotations
 
+import copy
 import datetime as dt_
 import itertools
 
@@ -122,6 +123,17 @@ def check_tuple(acc, pendulum, kw, absolute=False):
                 (d.years, d.months, d.weeks, d.remaining_days, d.hours, d.minutes, d.remaining_seconds,
                  d.microseconds):
             acc.mismatch("rebuild", "from-components", case, [obs.td_us(rb), repr(rb)], [obs.td_us(d), repr(d)])
+        # the library's own rebuilds from components: deepcopy, negation twice, the reduce protocol
+        for lbl, mk in (("deepcopy", lambda: copy.deepcopy(d)), ("neg-neg", lambda: -(-d)), ("reduce", lambda: (lambda r: r[0](*r[1]))(d.__reduce__()))):
+            acc.c["evaluations"] += 1
+            try:
+                r2 = mk()
+                got = (obs.td_us(r2), r2.years, r2.months, r2.weeks, r2.remaining_days, r2.hours, r2.minutes, r2.remaining_seconds, r2.microseconds)
+            except Exception as e:  # noqa: BLE001
+                got = f"raises {type(e).__name__}"
+            want = (obs.td_us(d), d.years, d.months, d.weeks, d.remaining_days, d.hours, d.minutes, d.remaining_seconds, d.microseconds)
+            if got != want:
+                acc.mismatch("rebuild", lbl, case, got, want)
         if d.invert != (total < 0):
             acc.mismatch("invert", "sign-of-total", case, d.invert, total < 0)
     # total_* / in_* consistent with total_seconds()
